@@ -28,7 +28,13 @@ pub struct CelCompiler<'l> {
 
 /// Maximum nesting of expressions (parentheses, lists, maps, arguments, indexes,
 /// ternary branches, `!`/`-` runs) the recursive descent parser accepts.
-const MAX_NESTING: usize = 32;
+///
+/// Every nested call or macro body is one more bytecode block inside a constant, which is
+/// four levels of JSON (`{"Push":{"ByteCode":{"inner":[`). Together with the envelope and
+/// the innermost constant, 30 keeps every compiled program below the 128 levels that
+/// `serde_json` reads back; with 32 a program nested 31 calls deep could be written but
+/// not read.
+const MAX_NESTING: usize = 30;
 
 impl<'l> CelCompiler<'l> {
     pub fn with_tokenizer(tokenizer: &'l mut dyn Tokenizer) -> Self {
